@@ -70,7 +70,7 @@ def gen_plan(seed, tier="quick"):
                                          allow_cancel=False, parallel=0.08,
                                          # (cancellation on the gateway whose reports carry sequence numbers: a
                                          # cancelled caller's late report cannot reach anybody else there)
-                                         cancel_sends=(driver == "tridonic"),
+                                         cancel_sends=(driver == "tridonic"), start_on_event=0.2,
                                          cats=_cats(r, driver)),
             "traffic": [], "deadline_s": 600}
     if driver in ("luba", "sci"):
